@@ -34,6 +34,8 @@ func main() {
 		cmdVerify(os.Args[2:])
 	case "prop":
 		cmdProp(os.Args[2:])
+	case "replay":
+		cmdReplay(os.Args[2:])
 	case "gen-contracts":
 		cmdGen(os.Args[2:])
 	default:
